@@ -281,8 +281,9 @@ def _paths_refer_to_same_file(path1: str | os.PathLike, path2: str | os.PathLike
     """
     try:
         return os.path.samefile(path1, path2)
-    except OSError:
-        # One of the paths does not exist (or cannot be stat'd).
+    except (OSError, ValueError):
+        # One of the paths does not exist (or cannot be stat'd; a path with an
+        # embedded null byte raises ValueError).
         return False
 
 
